@@ -3181,6 +3181,11 @@ func (c *pipelineConnClient) reader(conn net.Conn, stopCh <-chan struct{}, chs *
 				return err
 			}
 		}
+		if w.req.Header.IsHead() {
+			// The response to a HEAD request has no body, whatever its
+			// Content-Length says.
+			w.resp.SkipBody = true
+		}
 		if err = w.resp.Read(br); err != nil {
 			w.err = err
 			w.done <- struct{}{}
